@@ -267,6 +267,14 @@ func runE2E(bin string, r *rng.R, configs int, outDir string) ([]string, []any, 
 			con = []string{"-user*", "X-Vf-A: a", "-X-Vf-A", "X-Vf-B: v", "%x-vf-b"}
 			resp = []string{"X-Vf-A: 1"}
 		}
+		if ci == 3 {
+			// corpus configuration 4 (always runs): rules that leave User-Agent empty / with a second value.
+			// net/http's request writer sends that one field itself (once, first value, nothing when empty):
+			// known finding e2e-user-agent-written-once-by-net-http, shown on every run by these cases
+			req = []string{"User-Agent;", "X-Vf-A: 1"}
+			con = []string{"User-Agent: vf/1", "X-Vf-B: two"}
+			resp = []string{"X-Vf-C: 1"}
+		}
 		// how the rules reach the binary: flags, or one YAML list per flag in --config-file (every third
 		// configuration and corpus configuration 3). Only the file form can carry a rule with a comma or a
 		// double quote (the flag form is CSV-split), so such values appear in file configurations only.
@@ -409,7 +417,7 @@ func runE2E(bin string, r *rng.R, configs int, outDir string) ([]string, []any, 
 				method = []string{"connect", "Connect", "CONNECTX", "OPTIONS", "DELETE", "cONNECT"}[(ci+r.Intn(2))%6]
 			}
 			in := genRawHeader(r)
-			if ci == 1 {
+			if ci == 1 || ci == 3 {
 				in["User-Agent"] = []string{"vf-client/1"}
 			}
 			c, err := net.DialTimeout("tcp", addr, time.Second)
@@ -442,6 +450,9 @@ func runE2E(bin string, r *rng.R, configs int, outDir string) ([]string, []any, 
 			in := genRawHeader(r)
 			if ci == 0 && k == 0 {
 				in = rawHeader{"X-Vf-B": {"a b", "1"}, "X-Vf-C": {"two"}}
+			}
+			if ci == 3 {
+				in = rawHeader{"User-Agent": {"vf-client/1"}}
 			}
 			c, err := net.DialTimeout("tcp", addr, time.Second)
 			if err != nil {
